@@ -6,6 +6,11 @@
 (*           inst = the instance number found in its bytes (0: none), pure = all its bytes       *)
 (*           carried that one instance number                                                    *)
 (*   unrel   an unreliable message of a given size was written and read                          *)
+(*   unrelseq / stream  what came out of an unreliable tube (only what was written on it) and      *)
+(*           whether the reliable stream beside it is complete                                    *)
+(*   offered  a tube requested while the peer's accept queue was full is offered once it drains    *)
+(*   survives an unreliable tube keeps working after the reliable tube with the same number was    *)
+(*           closed and reaped; a new unreliable tube gets another id; nothing crosses             *)
 (* Judged against HopMux.tla: DistinctIds (clash = no), OfferedOnce (each instance accepted at    *)
 (* most once), Isolation (pure; the accepted tube's type and reliability are those the opener     *)
 (* of that instance chose).                                                                      *)
@@ -21,6 +26,9 @@ Good(e) ==
       [] e.ev = "unrel"  -> IF e.size <= 32768 THEN e.wrote = "yes" /\ e.got = e.size /\ e.same = "yes"
                             ELSE e.wrote = "no"
       [] e.ev = "unrelseq" -> e.intact = "yes" /\ e.extra = 0 /\ e.got <= e.wrote     \* only whole messages written on THAT tube
+      [] e.ev = "stream"   -> e.complete = "yes"                     \* the reliable stream next to it arrived complete
+      [] e.ev = "offered"  -> e.times = 1                            \* requested while the accept queue was full: offered once it drains
+      [] e.ev = "survives" -> e.ab = "yes" /\ e.ba = "yes" /\ e.cross = 0   \* reaping a tube leaves its same-numbered sibling alone
       [] e.ev \in {"createerr", "writeerr"} -> FALSE
       [] OTHER -> TRUE
 TInit == l = 1 /\ bad = 0 /\ typeOf = <<>> /\ accepted = {}
